@@ -162,6 +162,7 @@ func (r *vfRun) note(format string, a ...any) {
 }
 
 func (r *vfRun) violation(fp, desc string, c any) {
+	fp = strings.Join(strings.Fields(fp), "_") // fingerprints are single tokens
 	r.vfps[fp]++
 	if r.vfps[fp] > vfMaxViolationsPerFingerprint {
 		return
